@@ -64,11 +64,12 @@ func c17WideFile(c *Ctx, scen int) {
 	w := c.tNewWorld(tc)
 	defer w.stop()
 	next := 0
-	flush := func() {
-		rows := make([]map[string]any, nParts)
-		for i := range rows {
-			rows[i] = map[string]any{"id": next, "p": fmt.Sprintf("part-%04d", i), "msg": fmt.Sprintf("wide w%d", next%7)}
-			w.rows[next] = rows[i]
+	flush := func(every int) {
+		var rows []map[string]any
+		for i := 0; i < nParts; i += every {
+			row := map[string]any{"id": next, "p": fmt.Sprintf("part-%04d", i), "msg": fmt.Sprintf("wide w%d", next%7)}
+			rows = append(rows, row)
+			w.rows[next] = row
 			next++
 		}
 		done := make(chan error, 1)
@@ -122,10 +123,22 @@ func c17WideFile(c *Ctx, scen int) {
 			}
 		}
 	}
-	flush()
+	flush(1)
 	check("flush")
-	flush()
-	if _, err := w.eng.Merge(ctx); err != nil {
+	// the second file covers every other partition: the merge rebuilds those blocks and copies the blocks of the
+	// other partitions as they are; it is run by an engine configured with another row data compression (a copied
+	// block keeps the compression it was written with, and its metadata must go on saying so)
+	flush(2)
+	cfg2 := tc.cfg
+	comps := []bs.CompressionType{bs.CompressionNone, bs.CompressionSnappy, bs.CompressionZstd}
+	for i, cp := range comps {
+		if cp == tc.cfg.RowDataCompression {
+			cfg2.RowDataCompression = comps[(i+1+scen%2)%3]
+		}
+	}
+	eng2, err := bs.NewBloomSearchEngine(cfg2, w.meta, w.store)
+	must(err)
+	if _, err := eng2.Merge(ctx); err != nil {
 		c.violation("c17-merge-error", "Merge failed on healthy stores (wide files): "+err.Error(), map[string]any{"scenario": scen})
 		return
 	}
